@@ -14,3 +14,45 @@ package kvql
 //@   props C05
 //@   requires c != nil
 //@   assigns c.Hit
+//
+// ---------------------------------------------------------------------------------------------
+// Aliases and the per-row field cache (property C05, row mode).
+//
+// aliasOf(name): the select field that the statement names `name`.
+//@ specfun aliasOf(B) Int
+//
+// The row cache is coherent with a pair (k, v) when every entry holds the value of its alias on
+// that pair. Evaluating an expression needs a coherent cache (otherwise a stale entry would be
+// returned for an alias) and leaves it coherent.
+//@ define coherent(ctx *ExecuteCtx, k B, v B) Bool = ctx == nil || !ctx.EnableCache || (forall q B :: has(ctx.FieldCaches, q) ==> evalok(aliasOf(q), k, v) && ctx.FieldCaches[q] == evalv(aliasOf(q), k, v))
+//@ define emptyRowCache(ctx *ExecuteCtx) Bool = ctx == nil || !ctx.EnableCache || (forall q B :: !has(ctx.FieldCaches, q))
+//@ define wfCtx(ctx *ExecuteCtx) Bool = ctx == nil || !ctx.EnableCache || ctx.FieldCaches != nil
+// Every alias reference points at the select field of its name (established by the checker's
+// rewriting: A-ALIAS).
+//@ define wfRefs() Bool = forall r Ref :: is(r, *FieldReferenceExpr) ==> as(r, *FieldReferenceExpr).Name != nil && as(r, *FieldReferenceExpr).FieldExpr != nil && aliasOf(val(as(r, *FieldReferenceExpr).Name.Data)) == as(r, *FieldReferenceExpr).FieldExpr
+//
+//@ func (c *ExecuteCtx) GetFieldResult(name string) (v any, have bool)
+//@   props C05
+//@   requires c != nil
+//@   assigns nothing
+//@   ensures[C05] hit: have == (c.EnableCache && has(c.FieldCaches, val(name)))
+//@   ensures[C05] value: have ==> v == c.FieldCaches[val(name)]
+//
+//@ func (c *ExecuteCtx) SetFieldResult(name string, value any)
+//@   props C05
+//@   requires c != nil && wfCtx(c)
+//@   assigns mapof(c.FieldCaches)
+//@   ensures[C05] stored: c.EnableCache ==> has(c.FieldCaches, val(name)) && c.FieldCaches[val(name)] == value
+//@   ensures[C05] others: forall q B :: q != val(name) || !c.EnableCache ==> has(c.FieldCaches, q) == old(has(c.FieldCaches, q)) && c.FieldCaches[q] == old(c.FieldCaches[q])
+//
+// An alias evaluates to the value of its defining expression on the same pair, whether or not
+// the cache is enabled and whatever it held.
+// Meaning of an alias reference (README: a select field can be named with AS and the name used in
+// its place): it evaluates exactly as its defining expression does.
+//@ axiom ev_ref(e *FieldReferenceExpr, k B, v B): evalok(e, k, v) == evalok(e.FieldExpr, k, v) && evalv(e, k, v) == evalv(e.FieldExpr, k, v)
+//
+//@ func (e *FieldReferenceExpr) Execute(kv KVPair, ctx *ExecuteCtx) (result any, err error) implements Expression.Execute
+//@   props C05
+//@   requires e != nil
+//@   use ev_ref(e, val(kv.Key), val(kv.Value))
+//@   ensures[C05] abbreviation: (err == nil) == evalok(e.FieldExpr, val(kv.Key), val(kv.Value)) && (err == nil ==> result == evalv(e.FieldExpr, val(kv.Key), val(kv.Value)))
